@@ -139,6 +139,12 @@ func SeqCase(rt *rapid.T, prop, test string, pr *Profile) (*Run, *Replay) {
 		pr.Setup(run)
 	}
 	rp := &Replay{Property: prop, Test: test, Config: w.Cfg}
+	if pr.Prefix != nil {
+		for _, op := range pr.Prefix(rt, run) {
+			rp.Steps = append(rp.Steps, op)
+			run.Do(op)
+		}
+	}
 	// rapid's state-machine mode: it owns the number of steps (-rapid.steps) and shrinks the
 	// history as one value. Weights are expressed by registering an action several times.
 	actions := map[string]func(*rapid.T){}
